@@ -340,6 +340,13 @@ func (i *Interpreter) Exec(ctx context.Context, bs match.Bindings, props core.St
 	}()
 
 	v, err := RunProgram(o, p)
+	var x interface{}
+	if err == nil {
+		// Exporting the result can run script code (a getter
+		// of the returned object), so it happens while the
+		// context is still watched.
+		x, err = export(v)
+	}
 	cancel()
 
 	if err != nil {
@@ -348,8 +355,6 @@ func (i *Interpreter) Exec(ctx context.Context, bs match.Bindings, props core.St
 		}
 		return nil, err
 	}
-
-	x := v.Export()
 
 	var result match.Bindings
 	switch vv := x.(type) {
@@ -393,6 +398,21 @@ func canonicalize(x interface{}) (interface{}, error) {
 		return nil, err
 	}
 	return y, nil
+}
+
+// export converts the value a script returned to a Go value.  A
+// getter that throws (or is interrupted) surfaces as an error.
+func export(v goja.Value) (x interface{}, err error) {
+	defer func() {
+		if r := recover(); r != nil {
+			if ie, is := r.(*goja.InterruptedError); is {
+				err = ie
+			} else {
+				err = fmt.Errorf("%v", r)
+			}
+		}
+	}()
+	return v.Export(), nil
 }
 
 func RunProgram(o *goja.Runtime, p *goja.Program) (v goja.Value, err error) {
